@@ -3,6 +3,7 @@ mod common;
 mod rng;
 mod specs;
 mod e2_dag;
+mod e1;
 
 use common::{install_panic_hook, replay, run_check};
 
@@ -25,10 +26,31 @@ fn main() {
       let engine = serde_json::from_str::<serde_json::Value>(&text).ok().and_then(|v| v.get("engine").and_then(|e| e.as_str().map(|s| s.to_string()))).unwrap_or_default();
       match engine.as_str() {
         "e2-dag" => replay(&e2_dag::DagEngine, &text, path),
+        "e1-build" => replay(&e1::BuildEngine, &text, path),
         other => { eprintln!("unknown engine {other:?} in {path}"); 2 }
       }
     }
     Some("list") => { specs::list(); 0 }
+    Some("run1") => {
+      // sim run1 <engine> <config> <prop> <index> [n]   (debugging aid: generate run <index> of a config and print what fires)
+      use common::Engine;
+      let config = args.get(3).cloned().unwrap_or_default();
+      let prop = args.get(4).cloned().unwrap_or_default();
+      let index: u64 = args.get(5).and_then(|s| s.parse().ok()).unwrap_or(0);
+      let n: u64 = args.get(6).and_then(|s| s.parse().ok()).unwrap_or(1);
+      let cfgs = specs::configs_of(&prop);
+      let ci = cfgs.iter().position(|c| *c == config).unwrap_or(0);
+      for i in index..index + n {
+        let stream = rng::hash_str(&prop) ^ rng::hash_str(&config).rotate_left(7) ^ (ci as u64);
+        let seed = rng::mix(common::master_seed(), stream, i);
+        let mut r = rng::Rng::new(seed);
+        match args.get(2).map(|s| s.as_str()) {
+          Some("e1") => { let e = e1::BuildEngine; let scn = e.generate(&mut r, &config, &prop); let out = e.run(&scn, &prop); if n == 1 { println!("{}", serde_json::to_string(&scn).unwrap()); } println!("run {i}: violations={:?} harness_error={:?} stats={:?}", out.violations, out.harness_error, out.stats.0); }
+          _ => { let e = e2_dag::DagEngine; let scn = e.generate(&mut r, &config, &prop); let out = e.run(&scn, &prop); println!("run {i}: {:?}", out.violations); }
+        }
+      }
+      0
+    }
     _ => usage(),
   };
   std::process::exit(code);
